@@ -509,4 +509,7 @@ func c16(c *ctx) {
 	for i := 0; i < n; i++ {
 		c16script(c, i)
 	}
+	for i := 0; i < n/4; i++ {
+		c16wire(c, i)
+	}
 }
